@@ -63,6 +63,18 @@ def declare(reg, eng):
                          "AssertionError": {"when": [], "ensures": [("C14", "seq_eq(self.__xpm__.pre_tasks, old(self.__xpm__.pre_tasks))")]}},
                  modifies=["elems(self.__xpm__.pre_tasks)"])
 
+    eng.load("TypeConfig.add_pretasks_from", "core/objects.py")
+    UNCH = "seq_eq(self.__xpm__.pre_tasks, old(self.__xpm__.pre_tasks))"
+    reg.contract("TypeConfig.add_pretasks_from", params=["self", "configs"], types={"self": "TypeConfig", "configs": "tuple[TypeConfig]"},
+                 returns="TypeConfig",
+                 # the second entry point for attaching pre-tasks is guarded like the first: nothing is added to a sealed configuration
+                 ensures=[("C14", "not self.__xpm__._sealed or length(configs) == 0"), "result is self",
+                          ("C14", "implies(self.__xpm__._sealed, " + UNCH + ")")],
+                 raises={"SealedError": {"when": [("C14", "self.__xpm__._sealed")], "ensures": [("C14", UNCH)]},
+                         "AssertionError": {"when": [], "ensures": [("C14", "implies(self.__xpm__._sealed, " + UNCH + ")")]}},
+                 modifies=["elems(self.__xpm__.pre_tasks)"],
+                 loops={"config": {"invariants": ["implies(_i > 0, not self.__xpm__._sealed)", "implies(self.__xpm__._sealed, " + UNCH + ")"]}})
+
     # ---- C01: cycle bookkeeping and identifier cache
     eng.load("ConfigPath.detect_loop", "core/objects.py")
     eng.load("ConfigPath.has_loop", "core/objects.py", inline=True)
@@ -203,7 +215,7 @@ def declare(reg, eng):
                      ("C01", "implies(effect('hash.update'), isfresh(result) and result.has_loops == effect_result('has_loop'))"),
                      ("C01", "implies(effect('hash.update'), effect_before('path.push', 'hash.update') and effect_before('hash.update', 'has_loop') "
                              "and effect_before('has_loop', 'path.pop') and effect_count('hash.update') == 1)"),
-                     ("C14", "config.__xpm__._raw_identifier is old(config.__xpm__._raw_identifier)"),      # compute itself never caches
+                     (("C01", "C14"), "config.__xpm__._raw_identifier is old(config.__xpm__._raw_identifier)"),      # compute itself never caches (only top-level, sealed results are cached, by identifiers(): Appendix A)
                      "implies(not isnone(config_path), length(config_path.loops) == old(length(config_path.loops)))"],
                  raises={"NotImplementedError": {"when": []}, "Exception": {"when": []}, "AssertionError": {"when": []}},
                  modifies=None)
